@@ -28,9 +28,9 @@ abbrev Member := Nat × Mol
 
 /-- the loop of `System.generator`; `acc` is `generated_total_mass` -/
 def sysLoop (fuel : Nat) (cs : List SysComp) (M : Rat) : Nat → Rat → Oracle → G (List Member × Trace × Oracle)
-  | 0, acc, ω => if acc < M then .error .outOfFuel else .ok ([], [], ω)
+  | 0, acc, ω => if sysContinuesX acc M then .error .outOfFuel else .ok ([], [], ω)
   | n + 1, acc, ω =>
-    if ¬ (acc < M) then .ok ([], [], ω) else
+    if ¬ sysContinuesX acc M then .ok ([], [], ω) else
     match pickComp cs ω with
     | .error e => .error e
     | .ok (i, c, ω) =>
